@@ -1,7 +1,8 @@
 """Single source for MANIFEST.json (python tools_manifest.py regenerates it)."""
-SOURCE_COMMITS = []
+SOURCE_COMMITS = []  # no hook commits; fix: commits are listed in known_findings.json
 ENGINES = [
- {"name": "packs", "path": "vp/packs.py", "serves_properties": ["C02", "C18"], "kind_free_text": "E1: enumeration of the 164 shipped table modules / 895 combinations and a reference item decoder/encoder built from the recorded constructor arguments of the generated tables (independent of accessor.py)"},
+ {"name": "refcodec", "path": "vp/refcodec.py", "serves_properties": ["C04"], "kind_free_text": "E2: reference codec of every in.touch2 message as explicit byte concatenations + index-based un-framer, independent of driver/protocol/*.py"},
+ {"name": "packs", "path": "vp/packs.py", "serves_properties": ["C02", "C03", "C14", "C18"], "kind_free_text": "E1: enumeration of the 164 shipped table modules / 895 combinations and a reference item decoder/encoder built from the recorded constructor arguments of the generated tables (independent of accessor.py)"},
  {"name": "runner", "path": "vp/runner.py", "serves_properties": ["C02", "C16", "C18"], "kind_free_text": "Hypothesis-driven generation sharded over 16 processes, collect-by-signature then JSON ddmin shrinking, known-findings/fixed replay, evidence writer"},
 ]
 CHECKS = [
@@ -20,18 +21,25 @@ CHECKS = [
   "text": "For every distinct item shape all existing field contents x all domain values (1-byte fields completely; 2-byte bit-fields completely in thorough) and for every one of the ~20,500 items several generated (block, value) pairs are written through the blocking and the awaitable path of both structure classes; the emitted (pos,len,value) is applied as a big-endian store and must make the item read back the value (reference decoder and real accessor), flip no bit outside the item's own mask, change no other item of the cfg+log pair, be identical on both paths, and read-only items must raise and emit nothing; string forms of numbers/booleans included.",
   "ref": "DESIGN.md section 3 C02",
   "note": "Reference geometry comes from the constructor arguments in the generated tables (recorded by executing the table modules against recording classes), not from accessor.py."},
+ {"id": "C03", "engine": "packs", "level": "exploration",
+  "technique": "property-based testing: generated update/watch histories on real structures against a reference-decoder model of expected notifications",
+  "text": "Generated histories of partial patches (item-anchored offsets that straddle, touch one byte of, or just miss 2-byte items), sparse bit flips, full refreshes and watch/double-watch/unwatch/unwatch_all calls (plain functions and bound methods) run on both structure classes with every item of a generated cfg+log combination watched; per update and (item, observer) the number of callbacks must be 1 iff the reference decode of the old and new block differ (temperatures: stored word) and 0 otherwise, with (sender, old, new) equal to the reference decodes and the new block already visible inside the callback.",
+  "ref": "DESIGN.md section 3 C03",
+  "note": "Expected values come from the reference decoder over the recorded table arguments; when the unit item and a temperature word change in one update only exactly-once is checked for that temperature."},
+ {"id": "C14", "engine": "packs", "level": "exploration",
+  "technique": "exhaustive enumeration (raw words x units, 0.01-degree grid, flag x relation x unit per combination) + Hypothesis, judged by exact rational arithmetic and a reference operation ladder",
+  "text": "All 65536 raw words x {C,F} on one pair per platform: displayed value vs raw/18 resp. (raw+320)/10 (1e-9) and write-back of the displayed value through the blocking and awaitable path must emit the raw word exactly; every 0.01-degree decimal in [min-5,max+5] (float and string) must land within one device step, exactly when representable, order preserved; on every heater-capable cfg x log combination unit symbol, limits, the three temperatures and current_operation are compared with a written-down ladder for all heating/cooling flag values and current<,=,>real-target, set point equal to and different from the real target.",
+  "ref": "DESIGN.md section 3 C14",
+  "note": "A flag counts as set when its stored field is non-zero; one device step is 1/18 C or 0.1 F."},
+ {"id": "C04", "engine": "refcodec", "level": "exploration",
+  "technique": "property-based testing: generated fields for every message constructor, differential against an independent reference codec, round-trip through the real framer, handler-exclusivity and decode oracles, stateful decode sequences",
+  "text": "For each of the 26 message constructors generated in-range fields (binary payloads biased to newlines, quotes and tag text; latin-1 names incl. '|'; all shipped platform names x versions, exhaustively in thorough) are built by the library and must equal the reference codec byte for byte, survive framing/un-framing with (ip,port,src,dst) intact, be claimed by exactly the handler family of their verb among all standard handlers, decode on a fresh peer handler (and on one long-lived handler across message sequences) to the inputs, and a reply built from the received parms must carry swapped identifiers (index-based reference parser) and the sender's address.",
+  "ref": "DESIGN.md section 3 C04",
+  "note": "Identifiers never contain tag text (implicit precondition of every caller). SETWC/WCREQ unclaimed are known findings; the hello separator and greedy un-framing defects were repaired (known_findings.json)."},
 ]
 NOT_APPLICABLE = [
  {
   "property_id": "C01",
-  "reason": "check not built yet in this session (work in progress; see DESIGN.md section 3)"
- },
- {
-  "property_id": "C03",
-  "reason": "check not built yet in this session (work in progress; see DESIGN.md section 3)"
- },
- {
-  "property_id": "C04",
   "reason": "check not built yet in this session (work in progress; see DESIGN.md section 3)"
  },
  {
@@ -68,10 +76,6 @@ NOT_APPLICABLE = [
  },
  {
   "property_id": "C13",
-  "reason": "check not built yet in this session (work in progress; see DESIGN.md section 3)"
- },
- {
-  "property_id": "C14",
   "reason": "check not built yet in this session (work in progress; see DESIGN.md section 3)"
  },
  {
